@@ -34,6 +34,7 @@ THEOREM_NOTES = {
                    "broadcasting); numpy shape errors (the former F-C16-2) cannot be expressed in the list model and are covered by the "
                    "correspondence on real objects; drift bookkeeping over next_level as a fold, checked on the object at 4 successive levels",
     "C16_df_continuous": "Lipschitz bounds on [0,T_0] and on each closed period [T_j,T_{j+1}] (hence left limit = value = right limit at every tenor)",
+    "C16_df_negative_rate_refuted": "F-C16-5: rates >= 0 (1 + rate * accrual > 0) is a real hypothesis: tenors 1,2, rate -5/4 give df(1) = -4",
     "C16_df_*": "about the repaired tree (fix commit 'rate-model discount factor compounds ...'); on the unrepaired tree the oracle reports F-C16-1",
 }
 
@@ -407,13 +408,44 @@ def coupled_cases(res, rng, tier):
                                   dict(ctx0, level=level, coarse=cc, fine=cf, history=diff_history))
                 diff_history.append(cf)
             for ic in range(6 if tier == "quick" else 20):
-                times, (jf, jc), (df_, dc) = gen_path(rng, d, True, rng.randrange(1, 7))
-                if d == 1:
-                    jp, dp = np.array([jf[0], jc[0]]), np.array([df_[0], dc[0]])
+                recorded = ic == 0 and d == 1
+                if recorded:
+                    # the REAL coupled driver (CouplingMarkovChain of C03: sampler, coupling states, jump times, normals from numpy's
+                    # generator seeded from the run's seed) simulates the path; it is recorded on its way into the scheme
+                    np.random.seed(rng.randrange(2 ** 31))
+                    dcp.__dict__.pop("simulate_one_path_with_coupling", None)
+                    box, orig = {}, dcp.simulate_one_path_with_coupling
+
+                    def rec(orig=orig, box=box):
+                        box["p"] = orig()
+                        return box["p"]
+                    dcp.simulate_one_path_with_coupling = rec
+                    try:
+                        dcp.pre_computation(1, prod)
+                        box["p"] = orig()
+                        pth = box["p"]
+                        dcp.simulate_one_path_with_coupling = (lambda pth=pth: pth)
+                    except Exception as e:  # noqa
+                        res.violation(f"the coupled driver cannot simulate a path: {type(e).__name__}", dict(ctx0, level=level, error=f"{type(e).__name__}: {e}"))
+                        continue
+                    times = [float(t) for t in pth.jump_times]
+                    if len(times) > 24:          # long refined paths (small epsilon) make the exact-rational model slow: keep the first 24 points
+                        keep = 24
+                        pth = StochasticJumpPath(pth.jump_times[:keep], pth.diffusion_path[:, :keep], pth.jump_path[:, :keep])
+                        dcp.simulate_one_path_with_coupling = (lambda pth=pth: pth)
+                        times = times[:keep]
+                    jf, jc = [[float(v) for v in pth.jump_path[0]]], [[float(v) for v in pth.jump_path[1]]]
+                    df_, dc = [[float(v) for v in pth.diffusion_path[0]]], [[float(v) for v in pth.diffusion_path[1]]]
+                    res.bump("coupled_source", "recorded real coupled driver")
                 else:
-                    jp, dp = np.array([jf, jc]), np.array([df_, dc])
-                cp.driver_coupling_process.simulate_one_path_with_coupling = (
-                    lambda t=np.array(times), dp=dp, jp=jp: StochasticJumpPath(t, dp.copy(), jp.copy()))
+                    times, (jf, jc), (df_, dc) = gen_path(rng, d, True, rng.randrange(1, 7))
+                    if d == 1:
+                        jp, dp = np.array([jf[0], jc[0]]), np.array([df_[0], dc[0]])
+                    else:
+                        jp, dp = np.array([jf, jc]), np.array([df_, dc])
+                    cp.driver_coupling_process.simulate_one_path_with_coupling = (
+                        lambda t=np.array(times), dp=dp, jp=jp: StochasticJumpPath(t, dp.copy(), jp.copy()))
+                    res.bump("coupled_source", "scripted")
                 ctx = dict(ctx0, level=level, mu_h=mu_h, mu_2h=mu_2h, times=times, jump_fine=jf, jump_coarse=jc, diff_fine=df_, diff_coarse=dc)
                 try:
                     sp = cp.simulate_one_path_with_coupling()
@@ -433,7 +465,7 @@ def coupled_cases(res, rng, tier):
                 exact_all, ok = True, True
                 for comp, (mu, jr, dr) in enumerate(((mu_h, jf, df_), (mu_2h, jc, dc))):
                     X, D, W, J, dYs, inter = euler_fraction(kind, c, mu, x0, times, jr, dr, tdep, beta)
-                    exact = all_doubles([v for col in X + D + W + J for v in col] + inter)
+                    exact = (not recorded) and all_doubles([v for col in X + D + W + J for v in col] + inter)
                     exact_all &= exact
                     tol = Fraction(0) if exact else TOL_INEXACT
                     who = "CouplingSDE " + ("fine" if comp == 0 else "coarse")
@@ -477,7 +509,7 @@ def rate_model_oracle(res, rng, tier):
         x = np.array([x0], dtype=float).T
         out = [x.copy()]
         for i in range(len(times) - 1):
-            t, dt = np.float64(times[i]), times[i + 1] - times[i]      # the schemes pass numpy floats (list-valued tenors compare with those only)
+            t, dt = float(times[i]), times[i + 1] - times[i]      # a plain Python float (LiborSDEFunction used to need a numpy float: fixed)
             A = a(t, x)
             x = x + (sde_drift(t, x) + A @ np.atleast_2d(mu)) * dt + A @ np.array([[(jrow[i + 1] - jrow[i]) + (drow[i + 1] - drow[i])]])
             out.append(x.copy())
@@ -513,7 +545,7 @@ def rate_model_oracle(res, rng, tier):
                     want = [[float(sigma0[i, 0]) * min(1.0, max(0.0, tenors[i + 1] - t) / (tenors[i + 1] - tenors[i]))] for i in range(m)]
                 res.count(("sigma", cls.__name__, tuple(tenors), t), nontrivial=t >= tenors[0], kind=f"{cls.__name__} sigma(t) specification")
                 try:
-                    got = np.asarray(model.a.sigma(np.float64(t)), dtype=float).tolist()
+                    got = np.asarray(model.a.sigma(float(t)), dtype=float).tolist()
                 except Exception as e:  # noqa
                     res.violation(f"{cls.__name__}: sigma(t) raises {type(e).__name__}", dict(ctx0, t=t, error=f"{type(e).__name__}: {e}"))
                     break
@@ -575,6 +607,17 @@ def df_cases(res, rng, tier):
         for _ in range(m):
             tenors.append(tenors[-1] + dy(rng, 0.25, 1.5, 4))
         configs.append((tenors, [dy(rng, 0, 0.25, 64) for _ in range(m)]))
+    # rates below -1/accrual: simple compounding 1 + r * delta <= 0 (outside the theorems' hypothesis rates >= 0; recorded F-C16-5)
+    for cls in (LevyForwardModel, LevyLiborModel):
+        tenors, rates = [1.0, 2.0], [-1.25]
+        mdl = cls(np.array(rates), list(tenors), np.full((1, 1), 0.1), drv)
+        res.count(("df-negative", cls.__name__), kind="df with strongly negative rate")
+        with np.errstate(all="ignore"):
+            vals = [(t, float(mdl.df(t))) for t in (0.5, 0.8, 1.0, 1.5)]
+        bad = [(t, v) for t, v in vals if not (0 < v < float("inf"))]
+        if bad:
+            res.violation("df is infinite or negative for a rate below -1/accrual (no validation of 1 + rate * accrual > 0)",
+                          {"kind": "df-negative-rate", "finding": "F-C16-5", "cls": cls.__name__, "tenors": tenors, "rates": rates, "values": vals})
     for tenors, rates in configs:
         for cls, fn in ((LevyForwardModel, "forward_df"), (LevyLiborModel, "libor_df")):
             mdl = cls(np.array(rates), list(tenors), np.full((len(rates), 1), 0.1), drv)
@@ -674,6 +717,17 @@ def correspond(res):
                 res.broke(f"correspondence {g}", f"model and implementation differ on {len(bad)} of {len(cs)} case(s), first: {cs[bad[0]][:2500]}")
             else:
                 res.case_ok += 1
+
+
+def matches_known(v, known):
+    r = v["replay"]
+    if known["id"] == "F-C16-5":
+        try:
+            return r.get("kind") == "df-negative-rate" and min(r["rates"]) < 0 and any(1 + x * max(r["tenors"]) <= 0 for x in r["rates"]) \
+                and all(v_ > 0 for t, v_ in r["values"] if 1 + r["rates"][0] * t > 0 and t <= r["tenors"][0])
+        except Exception:  # noqa
+            return False
+    return False
 
 
 def replay(path):
